@@ -155,6 +155,9 @@ _AK = dict(ns_h=['/', '/a'], ns_all=['/', '/a'], connects=[['/', '/a']],
            ack_args=[[], ['v1'], ['v1', 'v2']],
            during=[[], [{'act': 'RxAck', 'id': 1, 'args': []}],
                    [{'act': 'RxAck', 'id': 1, 'args': ['v1']}],
+                   # (one falsy value is a value, not "nothing")
+                   [{'act': 'RxAck', 'id': 1, 'args': ['z0']}],
+                   [{'act': 'RxAck', 'id': 1, 'args': ['el']}],
                    [{'act': 'RxAck', 'id': 2, 'args': ['v1', 'b1']}],
                    [{'act': 'RxAck', 'id': 9, 'args': ['v1']}],
                    [{'act': 'TransportError'}]],
